@@ -52,6 +52,18 @@ package crunchrun
 //@ func copier.walkHostFS property C17 safety -bounds
 //@   calls copier.walkMountsBelow#1: requires includeMounts && $0 == dest && $1 == src
 //@   calls copier.walkMount#1: requires maxSymlinks >= 0 && $0 == dest && $1 == target && $2 == maxSymlinks - 1 && $3 == true
+//@   # children: every name of the directory listing is walked at dest/name from
+//@   # src/name with the same budget, unless src/name is a secret mount or a mount
+//@   # already handled as a mount; the first error ends the walk and is returned;
+//@   # a regular file is scheduled with its host path, its destination and its size
+//@   ghost cherr error = nil
+//@   ghost nch int = 0
+//@   ghost skipped int = 0
+//@   calls copier.walkHostFS#1: requires $0 == old(dest) + "/" + name && $1 == old(src) + "/" + name && $2 == maxSymlinks && $3 == false && !has(cp.secretMounts, old(src) + "/" + name)
+//@   calls copier.walkHostFS#1: set cherr = $r
+//@   loop 1: invariant cherr == nil
+//@   at assign .dst#2: assert $v == dest
+//@   at assign .src#2: assert $v == hostsrc
 
 // walkMountsBelow: every mount strictly below src (other than those copied as
 // regular files) is walked once, to the corresponding place below dest, without
